@@ -1,4 +1,5 @@
 import Afkak.ClientNet
+import Afkak.ClientTrace
 import Afkak.Monitor.C08
 /-! Open statements of C08 (full strength, not proved). -/
 namespace Afkak.Props.C08.Open
@@ -19,5 +20,61 @@ def C08_invalidated_topic_reloads_before_send : Prop :=
       match ob with
       | .mk _ _ _ (.payloads _ _) => False
       | _ => True
+
+/-- a cluster layout the faults have settled into: the brokers and, per topic, the partition metadata every
+    broker now reports -/
+structure Layout where
+  brokers : List Broker
+  topics : List TopicMeta
+
+/-- the broker node the layout names as leader of a key -/
+def Layout.leader (L : Layout) (key : TP) : Option Int :=
+  (L.topics.filter (fun t => t.name == key.1)).head?.bind (fun t =>
+    ((t.parts.filter (fun p => p.part == key.2)).head?).map (·.leader))
+
+/-- what a broker of the settled cluster answers to request `q`: the layout to a metadata request; for a payload
+    request, success for the partitions it leads and NotLeaderForPartition (6) for the others -/
+def Layout.answer (L : Layout) (st : St) (q : Req) (what : ReqWhat) : Option Res :=
+  match what with
+  | .metadata _ => some (.ok (.metadata L.brokers L.topics))
+  | .payloads _ keys =>
+    (match ((st.bcs.filter (fun i => i.b == q.b)).head?).map (·.node) with
+     | some node => some (.ok (.items (keys.map (fun key => (key, (if L.leader key == some node then 0 else 6), 0)))))
+     | none => none)
+  | _ => none
+
+/-- every completion delivered in the run is the settled cluster's answer (`whatOf k`: what request `k` asked,
+    as recorded in its `mk` observation), and nothing else disturbs the client: no close, no cancel, no drop -/
+def ConsistentWith (L : Layout) (cfg : Cfg) (whatOf : Nat → Option ReqWhat) : St → List (Env × Ev) → Prop
+  | _, [] => True
+  | st, (env, e) :: rest =>
+    (match e with
+     | .fire k r => (match reqGet st k, whatOf k with
+        | some q, some w => L.answer st q w = some r
+        | _, _ => False)
+     | .close _ | .cancel _ | .down _ | .bootLost _ | .bootFail _ => False
+     | _ => True) ∧ ConsistentWith L cfg whatOf (step cfg st env e).1 rest
+
+/-- **C08, third sentence** (full strength, NOT proved; exercised end to end by `harness/lib/e2e_recovery.py` with the
+    real Producer and Consumers): after any finite sequence of leader moves, broker restarts and address changes
+    (any reachable state of the client), once the cluster has settled into a layout `L` whose leaders are listed
+    brokers, a caller that keeps re-sending a request for keys of `L` - in a run where every completion is the
+    settled cluster's answer and every request is eventually answered (`pendingAtEnd = []`) - receives, at the
+    latest for its THIRD send (stale route -> NotLeader invalidates -> reload -> right leader), the responses of all
+    its keys.  The kernel-level step is `C08_recovers_step`; the coroutine-level half of the second sentence is
+    `C08_invalidated_topic_reloads_before_send`. -/
+def C08_recovers_within_retry_budget : Prop :=
+  ∀ (cfg : Cfg) (past evs : List (Env × Ev)) (L : Layout) (keys : List TP) (whatOf : Nat → Option ReqWhat)
+    (o1 o2 o3 : Nat),
+    WellFormedRun cfg (past ++ evs) → NoFuel cfg {} (past ++ evs) →
+    let st := past.foldl (fun s e => (step cfg s e.1 e.2).1) ({} : St)
+    st.closing = false →
+    (∀ key ∈ keys, ∃ n, L.leader key = some n ∧ n ≠ -1 ∧ n ∈ L.brokers.map (·.nodeId)) → keys ≠ [] →
+    ConsistentWith L cfg whatOf st evs →
+    (∀ it ∈ traceOf cfg st evs, ∀ k b e w, it = TItem.ob (.mk k b e w) → whatOf k = some w) →
+    -- the caller sends three times, each after the previous attempt completed
+    (evs.filterMap (fun e => match e.2 with | .send o ks none _ _ => if ks == keys then some o else none | _ => none)) = [o1, o2, o3] →
+    ((evs.foldl (fun s e => (step cfg s e.1 e.2).1) st).reqs.filter (·.pending)) = [] →
+    ∃ tags, TItem.ob (.result o3 (.responses tags)) ∈ traceOf cfg st evs ∧ tags.length = keys.length
 
 end Afkak.Props.C08.Open
